@@ -375,3 +375,33 @@ pub fn stale_and_foreign<K: Kern<D>, const D: usize>(dt: &Dt<K, D>, tr: &Tracer,
     // triangulation only at a slot dt has used with an older version
     (fk, fk, fv)
 }
+
+/// C14: "in general position this is THE Delaunay triangulation" (judged by TLC)
+pub fn op_canon<K: Kern<D>, const D: usize>(tr: &mut Tracer, obj: usize, _dt: &Dt<K, D>, gpmax: usize) {
+    tr.emit("Canon", obj, json!({"gpmax": gpmax}), json!({}), None, false);
+}
+
+/// log a construction that was executed elsewhere (another thread) as a Construct event
+pub fn emit_construct_result<K: Kern<D>, const D: usize>(
+    tr: &mut Tracer,
+    obj: usize,
+    ctor: &str,
+    g: delaunay::core::triangulation::TopologyGuarantee,
+    opts: Opts,
+    input: &[VIn],
+    res: Option<&Dt<K, D>>,
+    note: &str,
+) {
+    let in_args: Vec<Value> = input.iter().map(|v| v.args(tr)).collect();
+    let args = json!({"D": D, "kernel": K::NAME, "profile": profile(), "ctor": ctor, "g": format!("{g:?}"), "opts": opts.name(),
+        "input": in_args, "L": Vec::<i64>::new(), "dkey": tr.dkey.clone(), "note": note});
+    match res {
+        Some(dt) => {
+            let post = tr.project(dt);
+            tr.emit("Construct", obj, args, json!({"kind":"Ok","inserted":-1,"skipped":-1}), Some(post), false);
+        }
+        None => {
+            tr.emit("Construct", obj, args, json!({"kind":"Err","err":"(thread)","inserted":-1,"skipped":-1}), Some(dead_state()), false);
+        }
+    }
+}
